@@ -5,6 +5,8 @@ rows = []
 for d in sorted(glob.glob('/verif/seeded/*/')):
     m = json.load(open(os.path.join(d, 'meta.json')))
     sid = os.path.basename(d.rstrip('/'))
+    if sid.startswith('benign'):
+        continue  # behaviour-preserving refactors: evaluated by tools/benign_eval.py
     det = m.get('detected_by', [])
     how = []
     for p, r in m.get('checks_run', {}).items():
